@@ -19,11 +19,12 @@ From ZV Require Import Lib.Base.
 (* ------------------------------------------------------------------ corpus *)
 Record repo := { r_name : list N; r_id : N; r_tomb : bool; r_ftombs : list (list N);
                  r_branches : list (list N); r_rawmask : N }.
-Record doc := { d_name : list N; d_content : list N; d_mask : N; d_repo : nat; d_lang : N }.
+Record doc := { d_name : list N; d_content : list N; d_mask : N; d_repo : nat; d_lang : N;
+                d_secs : list (nat * nat) }.   (* symbol sections (Document.Symbols) as [start, end) RUNE offsets into the content *)
 Record corpus := { c_repos : list repo; c_docs : list doc; c_langs : list (list N * N) }.
 
 Definition dflt_repo : repo := {| r_name := []; r_id := 0; r_tomb := true; r_ftombs := []; r_branches := []; r_rawmask := 0 |}.
-Definition dflt_doc : doc := {| d_name := []; d_content := []; d_mask := 0; d_repo := 0; d_lang := 0 |}.
+Definition dflt_doc : doc := {| d_name := []; d_content := []; d_mask := 0; d_repo := 0; d_lang := 0; d_secs := [] |}.
 Definition repo_of (c : corpus) (d : doc) : repo := nth (d_repo d) (c_repos c) dflt_repo.
 Definition doc_at (c : corpus) (k : nat) : doc := nth k (c_docs c) dflt_doc.
 
@@ -68,7 +69,9 @@ Inductive Q :=
 | QFileNameSet (names : list (list N))
 | QTypeFileName (q : Q)
 | QTypeOther (q : Q)                      (* type:filematch / type:repo: no restriction inside a shard *)
-| QBoost (q : Q).
+| QBoost (q : Q)
+| QSymSubstr (p : list N) (cs : bool)                     (* Symbol{Substring} (content) *)
+| QSymRegexp (rid : N) (r : rx) (topfold : bool) (cs : bool).   (* Symbol{Regexp} *)
 
 (* ------------------------------------------------------------------ text primitives *)
 Definition utf8_len (r : N) : nat :=
@@ -97,6 +100,35 @@ Definition occurs_at (cs : bool) (p t : list N) (o : nat) : bool :=
   (if cs then runes_eqb p w else runes_eqb (map tolower p) (map tolower w)).
 Definition occ_offsets (cs : bool) (p t : list N) : list nat := filter (occurs_at cs p t) (seq 0 (S (length t))).
 Definition contains (cs : bool) (p t : list N) : bool := existsb (occurs_at cs p t) (seq 0 (S (length t))).
+
+(** the text of a symbol section *)
+Definition slice (t : list N) (sec : nat * nat) : list N := firstn (snd sec - fst sec) (skipn (fst sec) t).
+(** what the builder guarantees (ShardBuilder.Add: sorted, "sections overlap", "section goes past end of content") *)
+Fixpoint secs_ok (len : nat) (secs : list (nat * nat)) : Prop :=
+  match secs with
+  | [] => True
+  | (s, e) :: r => s <= e /\ e <= len /\ Forall (fun x => e <= fst x) r /\ secs_ok len r
+  end.
+Fixpoint secs_okb (len : nat) (secs : list (nat * nat)) : bool :=
+  match secs with
+  | [] => true
+  | (s, e) :: r => (s <=? e) && (e <=? len) && forallb (fun x => e <=? fst x) r && secs_okb len r
+  end.
+(** symbolSubstrMatchTree.prepare: the two-pointer walk over the document's sections and the (ascending) candidate
+    offsets; a candidate survives when it starts inside the current section and ends within it *)
+Fixpoint sym_trim (n : nat) (secs : list (nat * nat)) (cur : list nat) : list nat :=
+  match secs with
+  | [] => []
+  | (s, e) :: secs' =>
+      (fix go (cur : list nat) : list nat :=
+         match cur with
+         | [] => []
+         | o :: cur' =>
+             if e <=? o then sym_trim n secs' cur            (* start >= sections[secIdx].End: secIdx++ *)
+             else if o <? s then go cur'                     (* start < sections[secIdx].Start: drop the candidate *)
+             else if o + n <=? e then o :: go cur' else go cur'
+         end) cur
+  end.
 
 (** reference semantics of the regexp \bLIT\b (Go: ASCII word boundary): an occurrence whose both ends are at a
     transition between a word and a non-word character (text boundaries count as non-word) *)
@@ -174,6 +206,9 @@ Fixpoint eval (c : corpus) (q : Q) (d : doc) : bool :=
   | QTypeFileName q' => eval c q' d
   | QTypeOther q' => eval c q' d
   | QBoost q' => eval c q' d
+  (* Symbol{expr}: expr matches the text of one symbol section *)
+  | QSymSubstr p cs => existsb (fun sec => contains cs p (slice (d_content d) sec)) (d_secs d)
+  | QSymRegexp rid _ _ _ => existsb (fun sec => re_match rid (slice (d_content d) sec)) (d_secs d)
   end.
 
 Definition all_ids (c : corpus) : list nat := seq 0 (length (c_docs c)).
@@ -262,7 +297,9 @@ Inductive scan_kind :=
 | SKall                                   (* bruteForceMatchTree *)
 | SKre (rid : N) (fn : bool)              (* regexpMatchTree *)
 | SKword (w : list N) (fn : bool)         (* wordMatchTree *)
-| SKlit (p : list N) (cs fn : bool).      (* regexpMatchTree over an OpLiteral of < 3 runes (newSubstringMatchTree) *)
+| SKlit (p : list N) (cs fn : bool)       (* regexpMatchTree over an OpLiteral of < 3 runes (newSubstringMatchTree) *)
+| SKsymsub (p : list N) (cs : bool)       (* symbolSubstrMatchTree (>= 3 runes) / symbolRegexpMatchTree over a short literal *)
+| SKsymre (rid : N).                      (* symbolRegexpMatchTree: the engine on the text of every section *)
 Inductive mt :=
 | MTand (cs : list mt)
 | MTor (cs : list mt)
@@ -393,6 +430,16 @@ Fixpoint build (q : Q) : mt :=
   | QTypeFileName q' => MTwrap (build q')
   | QTypeOther q' => build q'
   | QBoost q' => MTwrap (build q')
+  (* newMatchTree, case query.Symbol.  The symbol nodes are represented by their verdict per document (a scan leaf): the docIterator
+     they borrow from the wrapped tree (substr leaf / distilled tree) is abstracted to "every document"; that the borrowed
+     iterator never skips a matching document is C01_docit_lower_bound for the wrapped tree plus the prefilter clause of re_okb. *)
+  | QSymSubstr p cs => MTscan (SKsymsub p cs) None
+  | QSymRegexp rid r topfold cs =>
+      let '(sub, isEq, _) := distill cs false r in
+      match isEq, sub with
+      | true, MTsubstr s => MTscan (SKsymsub (sl_pat s) (sl_cs s)) None     (* the distilled tree is a single substrMatchTree *)
+      | _, _ => MTscan (SKsymre rid) None        (* the expression's own regexp on the sections (after the repair of the Symbol case) *)
+      end
   end.
 
 (** pruneMatchTree: None = the tree cannot match any document *)
@@ -501,6 +548,12 @@ Definition scan_holds (sk : scan_kind) (k : nat) : bool :=
   | SKre rid fn => re_match rid (text_of fn k)
   | SKword w fn => word_found w (text_of fn k)
   | SKlit p cs fn => contains cs p (text_of fn k)
+  | SKsymsub p cs =>
+      let t := text_of false k in
+      let secs := d_secs (doc_at c k) in
+      if length p <? 3 then existsb (fun sec => contains cs p (slice t sec)) secs     (* literal regexp on each section *)
+      else match sym_trim (length p) secs (occ_offsets cs p t) with [] => false | _ => true end
+  | SKsymre rid => existsb (fun sec => re_match rid (slice (text_of false k) sec)) (d_secs (doc_at c k))
   end.
 Definition and3 (l : list st3) : st3 :=
   if existsb (fun s => match s with NoneM => true | _ => false end) l then NoneM
@@ -670,6 +723,23 @@ Fixpoint re_okb (q : Q) : bool :=
              | Some w => (0 <? length w) && Bool.eqb (re_match rid txt) (word_ref tolower w txt)
              | None => true
              end) (seq 0 (ndocs c))
+  | QSymRegexp rid r tf cs =>
+      (* per section: where the distillation is an exact single literal the engine agrees with literal containment on the
+         section text; and (prefilter borrowed as docIterator) a section match implies that the distilled tree holds *)
+      let '(sub, isEq, _) := distill orbit c freq cs false r in
+      forallb (fun k =>
+        let txt := text_of c false k in
+        let holds := accept re_match tolower c k (prepare c k sub) in
+        secs_okb (length txt) (d_secs (doc_at c k)) &&
+        forallb (fun sec =>
+          implb (re_match rid (slice txt sec)) holds &&
+          match isEq, sub with
+          | true, MTsubstr s => Bool.eqb (contains tolower (sl_cs s) (sl_pat s) (slice txt sec)) (re_match rid (slice txt sec))
+          | _, _ => true
+          end) (d_secs (doc_at c k))) (seq 0 (ndocs c))
+  | QSymSubstr _ _ =>
+      (* the sections are sorted, non-overlapping and inside the content (ShardBuilder.Add rejects anything else) *)
+      forallb (fun k => secs_okb (length (text_of c false k)) (d_secs (doc_at c k))) (seq 0 (ndocs c))
   | QAnd l => forallb re_okb l
   | QOr l => forallb re_okb l
   | QNot q' => re_okb q'
@@ -707,14 +777,28 @@ Definition tbl_lower (folds : list (N * N * list N)) (r : N) : N :=
   match find (fun e => N.eqb (fst (fst e)) r) folds with Some e => snd (fst e) | None => r end.
 Definition tbl_orbit (folds : list (N * N * list N)) (r : N) : list N :=
   match find (fun e => N.eqb (fst (fst e)) r) folds with Some e => snd e | None => [r] end.
-Definition tbl_re (docs : list doc) (tb : list (N * list (bool * bool))) (rid : N) (t : list N) : bool :=
+Definition tbl_re0 (docs : list doc) (tb : list (N * list (bool * bool))) (rid : N) (t : list N) : option bool :=
   match find (fun e => N.eqb (fst e) rid) tb with
   | Some e =>
       match find (fun x => runes_eqb (d_name (fst x)) t || runes_eqb (d_content (fst x)) t) (combine docs (snd e)) with
-      | Some x => if runes_eqb (d_name (fst x)) t then fst (snd x) else snd (snd x)
-      | None => false
+      | Some x => Some (if runes_eqb (d_name (fst x)) t then fst (snd x) else snd (snd x))
+      | None => None
       end
-  | None => false
+  | None => None
+  end.
+(** symtbl : (pattern id, per document the engine's verdict on the text of each symbol section) *)
+Definition tbl_sym (docs : list doc) (tb : list (N * list (list bool))) (rid : N) (t : list N) : option bool :=
+  match find (fun e => N.eqb (fst e) rid) tb with
+  | Some e =>
+      let rows := flat_map (fun dv => map (fun sv => (slice (d_content (fst dv)) (fst sv), snd sv))
+                                          (combine (d_secs (fst dv)) (snd dv))) (combine docs (snd e)) in
+      option_map snd (find (fun x => runes_eqb (fst x) t) rows)
+  | None => None
+  end.
+Definition tbl_re (docs : list doc) (tb : list (N * list (bool * bool))) (stb : list (N * list (list bool))) (rid : N) (t : list N) : bool :=
+  match tbl_re0 docs tb rid t with
+  | Some b => b
+  | None => match tbl_sym docs stb rid t with Some b => b | None => false end
   end.
 (** frequencies: the number of postings consulted (the real code uses the byte size of the compressed lists; the
     selection it drives is irrelevant for the result -- theorem substring_candidates_exact -- but must be 0 exactly
@@ -751,21 +835,22 @@ Fixpoint leaves (t : mt) : list (nat * nat * nat * bool) :=
   end.
 
 Definition repo_row := (list N * N * bool * list (list N) * list (list N) * N)%type.
-Definition doc_row := (list N * list N * N * nat * N)%type.
+Definition doc_row := (list N * list N * N * nat * N * list (nat * nat))%type.
 Definition mk_repo (r : repo_row) : repo :=
   let '(nm, id, tomb, ft, br, raw) := r in
   {| r_name := nm; r_id := id; r_tomb := tomb; r_ftombs := ft; r_branches := br; r_rawmask := raw |}.
 Definition mk_doc (d : doc_row) : doc :=
-  let '(nm, ct, mask, rp, lang) := d in
-  {| d_name := nm; d_content := ct; d_mask := mask; d_repo := rp; d_lang := lang |}.
+  let '(nm, ct, mask, rp, lang, secs) := d in
+  {| d_name := nm; d_content := ct; d_mask := mask; d_repo := rp; d_lang := lang; d_secs := secs |}.
 
 Definition c01case := (list repo_row * list doc_row * list (list N * N) * list (N * N * list N) *
                        list (N * list (bool * bool)) * Q * list (nat * list N) *
-                       option (list (nat * nat * nat * bool)))%type.   (* observed substring leaves of the unpruned tree (None: no tree built) *)
+                       option (list (nat * nat * nat * bool)) *        (* observed substring leaves of the unpruned tree (None: no tree built) *)
+                       list (N * list (list bool)))%type.              (* engine verdicts on the section texts, per symbol regexp atom *)
 Definition c01_model (cs : c01case) : list nat * list nat :=
-  let '(repos, docs, langs, folds, retbl, q, _, _) := cs in
+  let '(repos, docs, langs, folds, retbl, q, _, _, symtbl) := cs in
   let c := {| c_repos := map mk_repo repos; c_docs := map mk_doc docs; c_langs := langs |} in
-  let tl := tbl_lower folds in let ob := tbl_orbit folds in let re := tbl_re (c_docs c) retbl in
+  let tl := tbl_lower folds in let ob := tbl_orbit folds in let re := tbl_re (c_docs c) retbl symtbl in
   (search re tl ob c (real_freq ob c) q, spec_search re tl c q).
 Definition row_eqb (a b : nat * list N) : bool := Nat.eqb (fst a) (fst b) && runes_eqb (snd a) (snd b).
 (** 0 = model mechanism, model specification and implementation agree; 1 = the mechanism differs from the
@@ -774,7 +859,7 @@ Definition row_eqb (a b : nat * list N) : bool := Nat.eqb (fst a) (fst b) && run
     violated on this input: the engine matches a text on which the distilled literal tree does not hold;
     4 = the trigram selection (leftPad / rightPad / distance / freq=0 per substring atom) differs from the implementation's *)
 Definition c01_leaves (cs : c01case) : bool :=
-  let '(repos, docs, langs, folds, retbl, q, _, obs) := cs in
+  let '(repos, docs, langs, folds, retbl, q, _, obs, _) := cs in
   let c := {| c_repos := map mk_repo repos; c_docs := map mk_doc docs; c_langs := langs |} in
   let ob := tbl_orbit folds in
   match obs with
@@ -786,12 +871,13 @@ Definition c01_leaves (cs : c01case) : bool :=
       list_eqb leaf_eqb (leaves (build ob c (real_freq ob c) (expand (simp c q)))) l
   end.
 Definition c01_hyp (cs : c01case) : bool :=
-  let '(repos, docs, langs, folds, retbl, q, _, _) := cs in
+  let '(repos, docs, langs, folds, retbl, q, _, _, symtbl) := cs in
   let c := {| c_repos := map mk_repo repos; c_docs := map mk_doc docs; c_langs := langs |} in
-  let tl := tbl_lower folds in let ob := tbl_orbit folds in let re := tbl_re (c_docs c) retbl in
-  re_okb re tl ob c (real_freq ob c) (expand (simp c q)).
+  let tl := tbl_lower folds in let ob := tbl_orbit folds in let re := tbl_re (c_docs c) retbl symtbl in
+  re_okb re tl ob c (real_freq ob c) (expand (simp c q)) &&
+  forallb (fun d => secs_okb (length (d_content d)) (d_secs d)) (c_docs c).
 Definition c01_verdict (cs : c01case) : N :=
-  let '(_, docs, _, _, _, _, observed, _) := cs in
+  let '(_, docs, _, _, _, _, observed, _, _) := cs in
   let '(mech, spec) := c01_model cs in
   if negb (c01_hyp cs) then 3%N else
   if negb (c01_leaves cs) then 4%N else
